@@ -52,6 +52,14 @@ def o8_4_set_current_file(mir, tier):
                  ('set_current_file returns Err although every step succeeded', Or(BoolVal(ok), Not(And(c_ok, a_ok, r_ok))))]
         creates = [e for e in evs if e[0] == 'create']; renames = [e for e in evs if e[0] == 'rename']
         posts.append(('CURRENT is written in place instead of via a temp file', BoolVal(all(isinstance(e[1], dict) and e[1].get('path') == 'temp' for e in creates))))
+        def is_false(x):
+            if isinstance(x, bool): return not x
+            try:
+                from z3 import is_false as zf, simplify
+                return zf(simplify(x))
+            except Exception: return False
+        posts.append(('the temp file is opened for appending instead of being created empty (a leftover temp file of a crashed switch would end up in CURRENT in front of the new name)',
+                      BoolVal(all(is_false(e[2]) for e in creates))))
         posts.append(('the rename is not temp file -> CURRENT', BoolVal(all(isinstance(e[1], dict) and e[1].get('path') == 'temp' and isinstance(e[2], dict) and e[2].get('path') == 'CURRENT' for e in renames))))
         if ok:
             posts.append(('Ok without the sequence create temp, write name, rename', BoolVal(kinds == ['create', 'append', 'rename'])))
@@ -68,6 +76,8 @@ def o8_4_set_current_file(mir, tier):
             if m is not None:
                 fail = 'rename' if not mval(m, r_ok) else ('append' if not mval(m, a_ok) else 'create')
                 rep = 'returns Ok although' in label
+                if 'opened for appending' in label:
+                    res.violations.append({'label': label, 'events': [str(e)[:80] for e in evs], 'replay': ['stale_temp_before_switch']}); continue
                 res.violations.append({'label': label, 'events': [str(e)[:80] for e in evs], 'model': {str(x): mval(m, x) for x in (c_ok, a_ok, r_ok, d_ok)},
                                        'replay': ['log_and_apply_fault', 'created', {'rename': 'CURRENT', 'append': 'dbtemp', 'create': 'dbtemp'}[fail], 'once' if mval(m, d_ok) else 'sticky'] if rep else None,
                                        'confirmed_by': None if rep else {'reproduced': False, 'detail': 'no native scenario for this label'}})
@@ -85,4 +95,8 @@ def o8_4_confirm(v, out):
     """Native: a version set has to start a new manifest (and switch CURRENT) on a file system that fails the chosen operation;
     log_and_apply must not return Ok."""
     if out.get('_rc') != 0: return (False, 'native run failed: %s' % out.get('_stderr', '')[-300:])
+    if v['replay'][0] == 'stale_temp_before_switch':
+        bad = out.get('current_lines') != '1' or out.get('third_open') != 'ok' or out.get('value') != 'v'
+        return (bad, 'leftover temp files planted before a reopen that switches the manifest: CURRENT then holds %s line(s) (%s), the following open: %s, acknowledged key: %s'
+                % (out.get('current_lines'), out.get('current'), out.get('third_open'), out.get('value')))
     return (out.get('result') == 'Ok' and out.get('append_failed') == 'true', 'native log_and_apply result %s with a failing %s' % (out.get('result'), v['replay'][2:]))
